@@ -703,8 +703,8 @@ type CompoundAssignmentExpression struct {
 func (cae *CompoundAssignmentExpression) WriteTo(cw *CodeWriter) {
 	cae.Left.WriteTo(cw)
 	cw.WriteLeadingComments(cae.Token.LeadingComments)
-	cw.AddMapping(cae.Token.Start)
 	cw.WriteSpace()
+	cw.AddMapping(cae.Token.Start)
 	cw.WriteString(cae.Operator)
 	cw.WriteRune('=')
 	cw.WriteSpace()
